@@ -253,6 +253,12 @@ def check_case(case, ctx):
                 how = f"raised {type(exc1).__name__}" if exc1 is not None else "returned"
                 first = d[0].split(":")[0].strip("/").split("/")[0]
                 _v(f"{name}:model-changed:{first}", f"{name}({ {k: v for k, v in c.items() if k != 'name'} }) {how} and left the model changed: {d}")
+            # back-references (object.model, metabolite.reactions, gene.reactions, ...) belong to the state the helper
+            # must leave as found; the built model is coherent, so any incoherence here was introduced by the call
+            try:
+                observe.audit_crossrefs(model, where=f"{name}:model-changed")
+            except PropertyViolation as e:
+                _v(e.bucket, f"{name}({ {k: v for k, v in c.items() if k != 'name'} }) left the cross references changed: {e.message}")
             classes.append(name)
             classes.append("~raised" if exc1 is not None else "~returned")
             if len(spec["rxns"]) >= 3 and not isinstance(exc1, (TypeError, KeyError, AttributeError)):
